@@ -22,26 +22,26 @@ import Kevo.Proofs.ConcCore
 import Kevo.Proofs.ConcTable
 import Kevo.Gen.Locks
 namespace Kevo.Props.C07
-open Kevo.Conc Kevo.Gen.Locks
+open Kevo.LConc Kevo.Gen.Locks
 
 /-! ### the two generic theorems (proved once) -/
 
 theorem lockset_drf (P : Prog) (x : Var) (h : (∃ m, Protects P m x) ∨ AllAtomic P x) :
     ∀ sched s, reach P sched = some s → ¬ Race P s x :=
-  Kevo.Conc.lockset_drf P x h
+  Kevo.LConc.lockset_drf P x h
 
 theorem pairwise_drf (P : Prog) (x : Var) (h : PairProtected P x) :
     ∀ sched s, reach P sched = some s → ¬ Race P s x :=
-  Kevo.Conc.pairwise_drf P x h
+  Kevo.LConc.pairwise_drf P x h
 
 theorem lockorder_no_deadlock (P : Prog) (hac : Acyclic (Edge P)) (hp : Paired P) :
     ∀ sched s, reach P sched = some s → ¬ Deadlock P s :=
-  Kevo.Conc.lockorder_no_deadlock P hac hp
+  Kevo.LConc.lockorder_no_deadlock P hac hp
 
 theorem lockorder_progress (P : Prog) (rank : Lock → Nat) (N : Nat)
     (hrank : ∀ a b, Edge P a b → rank a < rank b) (hN : ∀ a, rank a ≤ N) (hp : Paired P) :
     ∀ sched s, reach P sched = some s → ∀ t, Unfinished P s t → ∃ u, (step P s u).isSome :=
-  Kevo.Conc.lockorder_progress P rank N hrank hN hp
+  Kevo.LConc.lockorder_progress P rank N hrank hN hp
 
 /-! ### instances for the generated tables -/
 
